@@ -60,3 +60,24 @@ Theorem C19_mux_demux_adjoint :
 Proof. intros. rewrite mux_adjoint. apply block_dot_is_demux_pairing. Qed.
 Print Assumptions C19_mux_demux_adjoint.
 
+
+(* ---- a surface far away does not matter (Real/KernelDecay.v): its segments and wake legs induce at most
+   1 / (2 pi distance) per unit circulation at the points of the other surfaces ---- *)
+From OAS Require Import Vec3 KernelDecay.
+Theorem C19_far_surface_segment_induction_bounded_by_inverse_distance :
+  forall (r1 r2 : nat -> R) d h,
+    0 < h -> h <= nrm r1 -> h <= nrm r2 -> 0 <= dot r1 r2 -> Rabs (fv r1 r2 d) <= 1 / (2 * PI * h).
+Proof. exact fv_decay. Qed.
+Print Assumptions C19_far_surface_segment_induction_bounded_by_inverse_distance.
+
+Theorem C19_far_surface_segment_induction_vanishes_far_away :
+  forall eps, 0 < eps -> exists H, 0 < H /\
+    forall r1 r2 d, H <= nrm r1 -> H <= nrm r2 -> 0 <= dot r1 r2 -> Rabs (fv r1 r2 d) < eps.
+Proof. exact fv_vanishes_far_away. Qed.
+Print Assumptions C19_far_surface_segment_induction_vanishes_far_away.
+
+Theorem C19_far_surface_wake_leg_induction_bounded_by_inverse_distance :
+  forall (u r : nat -> R) d p,
+    dot u u = 1 -> 0 < p -> p * p <= dot r r - dot u r * dot u r -> Rabs (semi u r d) <= 1 / (2 * PI * p).
+Proof. exact semi_decay. Qed.
+Print Assumptions C19_far_surface_wake_leg_induction_bounded_by_inverse_distance.
